@@ -197,6 +197,14 @@ def delAxisClause (before : Table α) (keys : Option (List String)) (arg : AxisA
 def delHolds [DecidableEq α] (before : Table α) (keys : Option (List String)) (arg : AxisArg) (after : Table α) : Bool :=
   frameSame before after && delAxisClause before keys arg .obs after && delAxisClause before keys arg .samp after
 
+/-- "…and nothing else": every OTHER live table (one the receiver was derived from, or derived from
+    the receiver) shows the same IDs, order, grid, type and metadata on both axes after the call -/
+def othersUnchanged [DecidableEq α] (others : List (Table α × Table α)) : Bool :=
+  others.all (fun p => frameSame p.1 p.2 && decide (p.2.omd = p.1.omd) && decide (p.2.smd = p.1.smd))
+
+/-- the live tables of a program as a store of values: an update replaces the receiver's slot -/
+def storeUpdate (f : Table α → Table α) (i : Nat) (ts : List (Table α)) : List (Table α) := modifyAt f i ts
+
 end TableOps
 
 /-! ## MetadataMap.from_file over characters -/
@@ -787,7 +795,16 @@ def specOf (o : Opts) (hdr0 : List Str) (conv : Str → Str → Val) (f : FileRe
   | some g => if fileOkWide o hdr0 g then some (relOf o hdr0 conv g) else none
   | none => none
 
+def asOthers (req : Json) : R (List (Table Rat × Table Rat)) := do
+  match optFld req "others" with
+  | none => pure []
+  | some j => asList (fun p => do pure ((← asTable (← fld p "before")), (← asTable (← fld p "after")))) j
+
+def othersClause (others : List (Table Rat × Table Rat)) : Verdict :=
+  chk "others-unchanged: every other live table keeps its IDs, grid and metadata" (othersUnchanged others)
+
 def handleAdd (req : Json) : R Json := do
+  let others ← asOthers req
   let before ← asTable (← fld req "table")
   let m ← asMdMapping (← fld req "mapping")
   let arg ← asAxisArg (← fld req "axis")
@@ -805,9 +822,11 @@ def handleAdd (req : Json) : R Json := do
   let mh : Bool := match arg.toAxis? with
     | some ax => holds (.add before m ax) (model (.add before m ax))
     | none => true
+  let v := v.and (othersClause others)
   pure (answer v (sameResult mres obs) (resultToJson tableToJson mres) [("model_holds", .bool mh)])
 
 def handleDel (req : Json) : R Json := do
+  let others ← asOthers req
   let before ← asTable (← fld req "table")
   let keys ← optF (asList asStr) req "keys"
   let arg ← asAxisArg (← fld req "axis")
@@ -821,6 +840,7 @@ def handleDel (req : Json) : R Json := do
     | some e => firstClause [("del: only an unknown axis raises, with UnknownAxisError", arg == .bad && asErr e == .unknownAxis),
         ("del: refused call leaves the table unchanged", sameTable before after)]
   let mh := holds (.del before keys arg) (model (.del before keys arg))
+  let v := v.and (othersClause others)
   pure (answer v (sameResult mres obs) (resultToJson tableToJson mres) [("model_holds", .bool mh)])
 
 def sameMapping (a : Except Err (Mapping Val)) (b : Except Err (List (Str × List (Str × String)))) : Bool :=
@@ -858,6 +878,7 @@ def normFile (t : Table Rat) : Table Rat :=
   { t with omd := n t.omd, smd := n t.smd }
 
 def handleCli (req : Json) : R Json := do
+  let others ← asOthers req
   let viaFile ← boolFD req "via_file" false
   let before ← asTable (← fld req "table")
   let c ← asCliOpts (← fld req "opts")
@@ -892,6 +913,7 @@ def handleCli (req : Json) : R Json := do
         ("cli: usable mapping files are accepted", err.isNone),
         ("frame: IDs, order, grid, type unchanged", frameSame before after),
         ("cli: table carries exactly the update the files describe", cliHolds before (mdOf (flat specS)) (mdOf (flat specO)) after)]
+  let v := v.and (othersClause others)
   pure (answer v (sameResult mres obs) (resultToJson tableToJson mres) [("guarded", .bool guarded)])
 
 def handle (req : Json) : R Json := do
